@@ -77,28 +77,50 @@ Proof.
   cbn [m_rt]. rewrite Hnil, delete_insert_delete. reflexivity.
 Qed.
 
+Lemma store_conserves w i ms hs fl s' (ink : list N) :
+  w_maps w !! i = Some ms ->
+  dks s' ++ kidsE (s_rt s') ≡ₚ ink ++ l_dk (w_log w) ++ kidsE (m_rt ms) ->
+  wdks (store w i hs fl s') ++ wheld (store w i hs fl s') ≡ₚ ink ++ wdks w ++ wheld w.
+Proof.
+  intros Ei H. unfold wdks, wheld, store. cbn [w_log w_maps]. fold (dks s').
+  pose proof (held_of_insert (w_maps w) i ms (MS (s_rt s') hs fl) Ei) as Hh. cbn [m_rt] in Hh.
+  apply (Permutation_app_inv_r (kidsE (m_rt ms))). rewrite <- app_assoc, Hh.
+  rewrite (app_assoc (dks s')), H. rewrite <- !app_assoc. apply Permutation_app_head. apply Permutation_app_head. apply Permutation_app_comm.
+Qed.
+
 (* ---------------------------------------------------------------- the operations covered *)
 Definition ledger_op (o : op) : Prop :=
   match o with
   | ONew _ _ _ | OInsert _ _ _ _ | OGet _ _ _ _ | ORemove _ _ _ | OClear _ | OShrinkTo _ _ | ODrop _ | OIter _ _ _
-  | ORetain _ _ _ | OIntoIter _ _ => True
+  | ORetain _ _ _ | OIntoIter _ _ | ODrainFilter _ _ _ _ _ | OFromIter _ _ _ _
+  | OClone _ _ | OCloneFrom _ _ | OEq _ _ | ORawGet _ _ _ | OSetAlg _ _ _ | OSetPred _ _ _ | OParIter _ _ _ _ | OSerialize _ => True
+  | OParExtend _ chunks => N.of_nat (length (concat chunks)) < usize_max
   | ODrain _ _ forget => forget = false
   | OReserve _ n | OTryReserve _ n => n <= usize_max
   | OExtend _ _ hint => hint <= usize_max
   | _ => False
   end.
 (* key objects the caller hands to the call / the call hands back to the caller *)
-Definition k_in (o : op) : list N :=
-  match o with OInsert _ _ kid _ => [kid] | OExtend _ items _ => kids_of items | _ => [] end.
+Definition slot_kids (w : world) (s : N) : list N :=
+  match w_maps w !! s with Some ms => kidsE (m_rt ms) | None => [] end.
+(* (clone and clone_from make a copy of every key object of the source: the copies enter here) *)
+Definition k_in (w : world) (o : op) : list N :=
+  match o with
+  | OInsert _ _ kid _ => [kid]
+  | OExtend _ items _ | OFromIter _ _ items _ => kids_of items
+  | OParExtend _ chunks => kids_of (concat chunks)
+  | OClone s _ | OCloneFrom _ s => slot_kids w s
+  | _ => []
+  end.
 Definition k_out (o : op) (r : out) : list N :=
   match o, r with
   | ORemove _ true _, OutOKV (Some (kid, _)) => [kid]
-  | ODrain _ _ _, OutL l | OIntoIter _ _, OutL l => kids3 l
+  | ODrain _ _ _, OutL l | OIntoIter _ _, OutL l | ODrainFilter _ _ _ _ _, OutL l => kids3 l
   | _, _ => []
   end.
 (* creating a map in a slot that still holds one would forget the old one: not a lawful history *)
 Definition fresh_ok (w : world) (o : op) : Prop :=
-  match o with ONew s _ _ => w_maps w !! s = None | _ => True end.
+  match o with ONew s _ _ | OFromIter s _ _ _ | OClone _ s => w_maps w !! s = None | _ => True end.
 
 Lemma rmap_ok {A B} (f : A -> B) (x : res world A) r w' :
   rmap f x = Ok r w' -> exists a, x = Ok a w' /\ r = f a.
@@ -106,10 +128,10 @@ Proof. destruct x; cbn; intros E; try discriminate. injection E as <- <-. eauto.
 
 Theorem step_conserves w t r w' :
   WInv c w -> ledger_op (t_op t) -> fresh_ok w (t_op t) -> step c w t = Ok r w' ->
-  wdks w' ++ wheld w' ++ k_out (t_op t) r ≡ₚ k_in (t_op t) ++ wdks w ++ wheld w.
+  wdks w' ++ wheld w' ++ k_out (t_op t) r ≡ₚ k_in w (t_op t) ++ wdks w ++ wheld w.
 Proof.
   intros HW Hop Hfresh E. unfold step in E. destruct (t_op t) eqn:Eop; cbn [ledger_op] in Hop; try contradiction;
-    cbn [k_in k_out fresh_ok] in *.
+    cbn [k_in k_out fresh_ok] in *; unfold slot_kids.
   - (* ONew *)
     set (w0 := W (<[s := MS rt_new hs hs]> (w_maps w)) (w_log w) (w_fuse w)) in E.
     assert (Hw0 : wheld w0 ≡ₚ wheld w).
@@ -177,15 +199,79 @@ Proof.
     intros ms s' Hms Em.
     pose proof (map_retain_conserves_keys c keep delta _ (Inv_lite _ _ _ (HW s ms Hms : Inv R ES (s_rt (load w ms (t_on t, t_tomb t) (t_perm t, t_qperm t)))))) as H. unfold wpp in H. rewrite Em in H.
     destruct H as [_ H]. exact H.
+  - (* ODrainFilter *)
+    apply rmap_ok in E as (a & Ea & ->). cbn [app k_out].
+    apply (lift_slot false w s _ _ _ a w' [] kids3 Ea). intros ms s' Hms Em. cbn [app].
+    pose proof (map_drain_filter_conserves_keys c take delta j forget _ (Inv_lite _ _ _ (HW s ms Hms : Inv R ES (s_rt (load w ms (t_on t, t_tomb t) (t_perm t, t_qperm t)))))) as H.
+    unfold wpp in H. rewrite Em in H. destruct H as (_ & yielded & -> & H). rewrite kids3_elem3. exact H.
   - (* OExtend *)
     apply rmap_ok in E as (a & Ea & ->).
     apply (lift_slot true w s _ _ _ a w' (kids_of items) (fun _ => []) Ea). intros ms s' Hms Em. rewrite app_nil_r.
     destruct (map_extend_conserves c items hint _ a s' (HW s ms Hms : Inv R ES (s_rt (load w ms (t_on t, t_tomb t) (t_perm t, t_qperm t)))) Hop Em) as (_ & Hk & _). exact Hk.
+  - (* OFromIter *)
+    set (w0 := W (<[s := MS rt_new hs hs]> (w_maps w)) (w_log w) (w_fuse w)) in E.
+    assert (Hw0 : wheld w0 ≡ₚ wheld w).
+    { unfold wheld, w0. cbn [w_maps]. rewrite held_of_insert_new by exact Hfresh. reflexivity. }
+    apply rmap_ok in E as (a & Ea & ->). rewrite <- Hw0. change (wdks w) with (wdks w0).
+    apply (lift_slot false w0 s _ _ _ a w' (kids_of items) (fun _ => []) Ea).
+    intros ms s' Hms Em. unfold w0 in Hms. cbn [w_maps] in Hms. rewrite lookup_insert in Hms. injection Hms as <-.
+    cbn [m_rt]. rewrite app_nil_r.
+    set (s0 := load w0 (MS rt_new hs hs) (t_on t, t_tomb t) (t_perm t, t_qperm t)) in *.
+    unfold bind in Em. pose proof (rp_hb_with_capacity c false hint s0) as Hrp.
+    pose proof (hb_with_capacity_spec c false hint (fun o _ => match o with Some t0 => hel t0 = ∅ /\ hb_ok ES t0 | None => True end) (fun _ _ => True) s0) as Hsp.
+    unfold wp in Hsp.
+    destruct (hb_with_capacity c false hint s0) as [[t0|] s1|p s1|f] eqn:Ec; try discriminate.
+    destruct Hrp as (Hr1 & Hk1 & _). assert (Hem : hel t0 = ∅ /\ hb_ok ES t0) by (apply Hsp; auto). destruct Hem as [Hem Hok0].
+    unfold setm, modify in Em. cbn beta iota in Em.
+    set (s2 := set_rt (RT t0 (lo (s_rt s1))) s1) in Em.
+    assert (HI2 : Inv R ES (s_rt s2)).
+    { unfold s2. cbn [set_rt s_rt]. rewrite Hr1. unfold s0. cbn [load s_rt m_rt lo rt_new]. split; [exact HRpos|]. split; [exact Hok0|exact I]. }
+    destruct (insert_all_conserves c items s2 a s' HI2 Em) as (_ & Hk & _). rewrite Hk.
+    apply Permutation_app_head. unfold s2, dks, elems. cbn [set_rt s_rt main lo s_log]. rewrite Hem, map_to_list_empty, Hr1.
+    unfold dks in Hk1. rewrite Hk1. unfold s0, w0. cbn. apply Permutation_app_head. unfold kidsE, elems, rt_new. cbn. rewrite map_to_list_empty. reflexivity.
+  - (* OClone *)
+    destruct (w_maps w !! s) as [ms|] eqn:Es; [|discriminate]. destruct (negb _); [discriminate|].
+    destruct (rt_clone c (load w ms (t_on t, t_tomb t) (t_perm t, t_qperm t))) as [r0 st'|p st'|f] eqn:Ec; try discriminate.
+    injection E as <- <-. rewrite app_nil_r.
+    destruct (rt_clone_star c _ r0 st' (HW s ms Es : Inv R ES (s_rt (load w ms (t_on t, t_tomb t) (t_perm t, t_qperm t)))) Ec) as (Hk & _ & Hkids).
+    unfold wdks, wheld. cbn [w_log w_maps]. fold (dks st'). rewrite Hk. unfold dks. cbn [load s_log s_rt] in *.
+    rewrite held_of_insert_new by exact Hfresh. cbn [m_rt]. rewrite Hkids.
+    rewrite !app_assoc. apply Permutation_app_tail. apply Permutation_app_comm.
+  - (* OCloneFrom *)
+    destruct (w_maps w !! s) as [src|] eqn:Es; [|discriminate]. destruct (w_maps w !! d) as [dst|] eqn:Ed; [|discriminate].
+    destruct (negb _); [discriminate|].
+    destruct (rt_clone_from c (m_rt src) (load w dst (t_on t, t_tomb t) (t_perm t, t_qperm t))) as [u st'|p st'|f] eqn:Ec; try discriminate.
+    injection E as <- <-. rewrite app_nil_r.
+    apply (store_conserves w d dst _ _ st' (kidsE (m_rt src)) Ed).
+    apply (rt_clone_from_star c (m_rt src) _ u st' (HW d dst Ed : Inv R ES (s_rt (load w dst (t_on t, t_tomb t) (t_perm t, t_qperm t)))) (HW s src Es) Ec).
+  - (* OEq *)
+    destruct (w_maps w !! b) as [mb|]; [|discriminate]. apply rmap_ok in E as (x & Ea & ->).
+    rewrite app_nil_r. cbn [app]. apply (lift_slot0 false w a _ _ _ x w' Ea). intros ms s' _ Em.
+    exact (rp_star _ _ _ x s' (rp_map_equal (m_rt mb)) Em).
   - (* ODrop *)
     destruct (with_slot w s (t_on t, t_tomb t) (t_perm t, t_qperm t) map_drop) as [u w1|p w1|f] eqn:Ew; try discriminate.
     injection E as <- <-. cbn [app].
     apply (lift_slot_del false w s _ _ _ u w1 [] (fun _ => []) Ew). intros ms s' Hms Em. cbn [app]. rewrite app_nil_r.
     apply (map_drop_star c _ u s' (HW s ms Hms : Inv R ES (s_rt (load w ms (t_on t, t_tomb t) (t_perm t, t_qperm t)))) Em).
+  - (* ORawGet *)
+    rewrite app_nil_r. cbn [app]. apply (lift_slot0 true w s _ _ _ r w' E). intros ms s' _ Em.
+    exact (rp_star _ _ _ r s' (rp_map_raw_get variant k) Em).
+  - (* OSetAlg *)
+    destruct (w_maps w !! a) as [ma|]; [|discriminate]. destruct (w_maps w !! b) as [mb|]; [|discriminate].
+    destruct (_ || _); [discriminate|]. injection E as <- <-. rewrite app_nil_r. reflexivity.
+  - (* OSetPred *)
+    destruct (w_maps w !! a) as [ma|]; [|discriminate]. destruct (w_maps w !! b) as [mb|]; [|discriminate].
+    destruct (_ || _); [discriminate|]. injection E as <- <-. rewrite app_nil_r. reflexivity.
+  - (* OParIter *)
+    apply rmap_ok in E as (a & Ea & ->). rewrite app_nil_r. cbn [app]. apply (lift_slot0 false w s _ _ _ a w' Ea).
+    intros ms s' Hms Em. apply (map_par_iter_star c delta splits _ a s' (HW s ms Hms : Inv R ES (s_rt (load w ms (t_on t, t_tomb t) (t_perm t, t_qperm t)))) Em).
+  - (* OParExtend *)
+    apply rmap_ok in E as (a & Ea & ->).
+    apply (lift_slot true w s _ _ _ a w' (kids_of (concat chunks)) (fun _ => []) Ea). intros ms s' Hms Em. rewrite app_nil_r.
+    exact (map_par_extend_star c chunks _ a s' (HW s ms Hms : Inv R ES (s_rt (load w ms (t_on t, t_tomb t) (t_perm t, t_qperm t)))) Hop Em).
+  - (* OSerialize *)
+    apply rmap_ok in E as (a & Ea & ->). rewrite app_nil_r. cbn [app]. apply (lift_slot0 false w s _ _ _ a w' Ea).
+    intros ms s' _ Em. exact (rp_star _ _ _ a s' rp_map_serialize Em).
 Qed.
 
 
@@ -200,7 +286,11 @@ Inductive ok_run : world -> list traced -> list out -> world -> Prop :=
     ledger_op (t_op t) -> fresh_ok w (t_op t) -> step c w t = Ok r w1 -> ok_run w1 ts rs w' ->
     ok_run w (t :: ts) (r :: rs) w'.
 
-Definition keys_in (ts : list traced) : list N := concat (map (fun t => k_in (t_op t)) ts).
+Fixpoint keys_in (w : world) (ts : list traced) : list N :=
+  match ts with
+  | [] => []
+  | t :: ts => k_in w (t_op t) ++ match step c w t with Ok _ w1 => keys_in w1 ts | _ => [] end
+  end.
 Fixpoint keys_out (ts : list traced) (rs : list out) : list N :=
   match ts, rs with
   | t :: ts, r :: rs => k_out (t_op t) r ++ keys_out ts rs
@@ -212,15 +302,15 @@ Fixpoint keys_out (ts : list traced) (rs : list out) : list N :=
    the key objects still stored, those in the drop ledger, and those handed back: each once *)
 Theorem history_conserves_keys w ts rs w' :
   WInv c w -> ok_run w ts rs w' ->
-  wdks w' ++ wheld w' ++ keys_out ts rs ≡ₚ keys_in ts ++ wdks w ++ wheld w.
+  wdks w' ++ wheld w' ++ keys_out ts rs ≡ₚ keys_in w ts ++ wdks w ++ wheld w.
 Proof.
   intros HW Hrun. induction Hrun as [w|w t r w1 ts rs w' Hop Hfr Hst Hrun IH].
   - cbn. rewrite app_nil_r. reflexivity.
   - pose proof (step_core c HRpos w t HW (ledger_op_core _ Hop)) as Hc. rewrite Hst in Hc. destruct Hc as [HW1 _].
     specialize (IH HW1). pose proof (step_conserves w t r w1 HW Hop Hfr Hst) as H1.
-    unfold keys_in. cbn [map concat keys_out]. fold (keys_in ts).
+    cbn [keys_in keys_out]. rewrite Hst.
     (* IH: d' ++ h' ++ out_rest = in_rest ++ d1 ++ h1;  H1: d1 ++ h1 ++ out1 = in1 ++ d ++ h *)
-    transitivity ((keys_in ts ++ wdks w1 ++ wheld w1) ++ k_out (t_op t) r).
+    transitivity ((keys_in w1 ts ++ wdks w1 ++ wheld w1) ++ k_out (t_op t) r).
     { rewrite <- IH. rewrite <- !app_assoc. apply Permutation_app_head. apply Permutation_app_head. apply Permutation_app_comm. }
     rewrite <- !app_assoc. rewrite H1. rewrite !app_assoc. apply Permutation_app_tail. apply Permutation_app_tail. apply Permutation_app_comm.
 Qed.
@@ -229,24 +319,37 @@ Qed.
    or handed back every key object it was given, exactly once *)
 Corollary history_all_released ts rs w' :
   ok_run world0 ts rs w' -> w_maps w' = ∅ ->
-  wdks w' ++ keys_out ts rs ≡ₚ keys_in ts.
+  wdks w' ++ keys_out ts rs ≡ₚ keys_in world0 ts.
 Proof.
   intros Hrun Hem. pose proof (history_conserves_keys world0 ts rs w' (WInv_empty c) Hrun) as H.
   unfold wheld in H. rewrite Hem in H. cbn in H. rewrite app_nil_r in H. exact H.
+Qed.
+
+(* in a history without clone/clone_from, what goes in can be read off the operations alone *)
+Definition static_in (o : op) : bool := match o with OClone _ _ | OCloneFrom _ _ => false | _ => true end.
+Lemma keys_in_static w ts rs w' :
+  ok_run w ts rs w' -> forallb (fun t => static_in (t_op t)) ts = true ->
+  keys_in w ts = concat (map (fun t => k_in world0 (t_op t)) ts).
+Proof.
+  intros Hrun. induction Hrun as [w|w t r w1 ts rs w' Hop Hfr Hst Hrun IH]; intros Hs; [reflexivity|].
+  cbn [forallb] in Hs. apply andb_prop in Hs as [H1 H2]. cbn [keys_in map concat]. rewrite Hst, (IH H2).
+  f_equal. destruct (t_op t); try discriminate; reflexivity.
 Qed.
 
 (* a checker for [ok_run] (used for the non-vacuity example) *)
 Definition ledger_opb (o : op) : bool :=
   match o with
   | ONew _ _ _ | OInsert _ _ _ _ | OGet _ _ _ _ | ORemove _ _ _ | OClear _ | OShrinkTo _ _ | ODrop _ | OIter _ _ _
-  | ORetain _ _ _ | OIntoIter _ _ => true
+  | ORetain _ _ _ | OIntoIter _ _ | ODrainFilter _ _ _ _ _ | OFromIter _ _ _ _
+  | OClone _ _ | OCloneFrom _ _ | OEq _ _ | ORawGet _ _ _ | OSetAlg _ _ _ | OSetPred _ _ _ | OParIter _ _ _ _ | OSerialize _ => true
+  | OParExtend _ chunks => N.of_nat (length (concat chunks)) <? usize_max
   | ODrain _ _ forget => negb forget
   | OReserve _ n | OTryReserve _ n => n <=? usize_max
   | OExtend _ _ hint => hint <=? usize_max
   | _ => false
   end.
 Definition fresh_okb (w : world) (o : op) : bool :=
-  match o with ONew s _ _ => match w_maps w !! s with None => true | Some _ => false end | _ => true end.
+  match o with ONew s _ _ | OFromIter s _ _ _ | OClone _ s => match w_maps w !! s with None => true | Some _ => false end | _ => true end.
 Fixpoint run_okb (w : world) (ts : list traced) : option (list out * world) :=
   match ts with
   | [] => Some ([], w)
@@ -260,11 +363,14 @@ Fixpoint run_okb (w : world) (ts : list traced) : option (list out * world) :=
   end.
 Lemma ledger_opb_sound o : ledger_opb o = true -> ledger_op o.
 Proof.
-  destruct o; cbn; try discriminate; auto; try (intros H; apply N.leb_le; exact H).
+  destruct o; cbn; try discriminate; auto; try (intros H; apply N.leb_le; exact H); try (intros H; apply N.ltb_lt; exact H).
   intros H. destruct forget; [discriminate|reflexivity].
 Qed.
 Lemma fresh_okb_sound w o : fresh_okb w o = true -> fresh_ok w o.
-Proof. destruct o; cbn; auto. destruct (w_maps w !! s); [discriminate|reflexivity]. Qed.
+Proof.
+  destruct o; cbn; auto;
+    match goal with |- context [w_maps w !! ?x] => destruct (w_maps w !! x); discriminate || reflexivity end.
+Qed.
 Lemma run_okb_sound : forall ts w rs w', run_okb w ts = Some (rs, w') -> ok_run w ts rs w'.
 Proof.
   induction ts as [|t ts IH]; intros w rs w' E; cbn [run_okb] in E.
